@@ -202,17 +202,17 @@ package check
 //@   at call getVarmapsSymbols#0 before assert[members-searched-under-the-locals-name] arg1 == vars.SubMaps && streq(arg3, strName) && arg5 == onlyFunc
 //@   loop range:locVarMap exits-early-only-if [every-local-of-the-scope-is-visited] false
 //@ end
-// the walk over one file: the main scope's locals, then level by level every nested scope -- a scope is passed over
-// only when it is a global function's scope recorded for exclusion; every other scope has its locals searched and ALL
-// its sub-scopes queued for the next level, whether or not it declares locals itself
+// the walk over one file: the main scope's locals, then level by level EVERY nested scope - also the bodies of global
+// functions (they were passed over until fix: a local function declared inside a global function was not found) -:
+// each scope has its locals searched and ALL its sub-scopes queued for the next level, whether or not it declares
+// locals itself
 //@ func (*resultSorter).getQuerySymbols
 //@   props C19
 //@   at call getLocVarMapsSymbols#0 before assert[main-scope-locals-are-searched] arg1 == fileResult.MainFunc.MainScope.LocVarMap && !arg4
 //@   ensures[main-scope-locals-are-searched] hits("getLocVarMapsSymbols#0") == 1
 //@   at call getLocVarMapsSymbols#1 before assert[nested-scope-locals-are-searched-for-functions] arg1 == scope.LocVarMap && arg4
 //@   loop range:scopes exits-early-only-if [every-scope-of-the-level-is-visited] false
-//@   loop range:scopes step [unexcluded-scope-is-searched-and-its-sub-scopes-queued] hits("getLocVarMapsSymbols#1") == prev(hits("getLocVarMapsSymbols#1")) + 1 && len(tempScopes) == prev(len(tempScopes)) + len(scope.SubScopes)
-//@        || prev(has(curFileExcludeScopes, scope) && curFileExcludeScopes[scope]) && len(tempScopes) == prev(len(tempScopes))
+//@   loop range:scopes step [every-scope-is-searched-and-its-sub-scopes-queued] hits("getLocVarMapsSymbols#1") == prev(hits("getLocVarMapsSymbols#1")) + 1 && len(tempScopes) == prev(len(tempScopes)) + len(scope.SubScopes)
 //@ end
 // member filter: in nested scopes only function members are offered; nothing else is dropped
 //@ func (*resultSorter).getVarmapsSymbols
